@@ -367,4 +367,41 @@ var checks = map[string]Check{
 			return js
 		},
 	},
+	"C14": {
+		Level:       "model_checking",
+		Rule:        "race mode: the scenario binary is built with -race; the scheduler's hand-off is invisible to the detector and the shims publish exactly the happens-before edges of the real primitives, so every explored schedule is checked for data races exactly; scenarios: 2-3 threads each performing one documented-concurrent operation {Call, AsyncCall, Push, SetID, Swap store/load, Close, remote Close, GetSession, RangeSession, CountSession, age setters/getters, Health/ID, server-side Call} on shared sessions/peers; 21 operation pairs (quick) / all pairs and selected triples (thorough) x all interleavings up to the preemption bound; raw protocol plus a thrift-binary call/call pair",
+		Assumptions: append([]string{"a race report is attributed to the schedule in which it first appears (the detector reports each racing pair once per process); reports produced while an execution is being torn down are ignored"}, baseAssumptions...),
+		Jobs: func(tier string) []Job {
+			pairs := [][]string{{"call", "call"}, {"call", "push"}, {"call", "close"}, {"call", "rclose"}, {"call", "setid"}, {"call", "swap"}, {"call", "srvcall"}, {"push", "close"}, {"setid", "lookup"}, {"setid", "range"}, {"setid", "count"}, {"setid", "setid"}, {"swap", "swap"}, {"close", "rclose"}, {"close", "close"}, {"close", "lookup"}, {"close", "range"}, {"async", "close"}, {"ages", "call"}, {"health", "close"}, {"srvcall", "rclose"}}
+			if tier == "thorough" {
+				ops := []string{"call", "push", "setid", "swap", "close", "lookup", "range", "count", "ages", "srvcall", "rclose", "health", "async"}
+				pairs = nil
+				for i, a := range ops {
+					for _, b := range ops[i:] {
+						pairs = append(pairs, []string{a, b})
+					}
+				}
+				pairs = append(pairs, []string{"call", "close", "lookup"}, []string{"call", "setid", "range"}, []string{"push", "rclose", "count"}, []string{"async", "swap", "close"})
+			}
+			var js []Job
+			for _, pr := range pairs {
+				params := "a=" + pr[0] + ",b=" + pr[1]
+				if len(pr) > 2 {
+					params += ",c=" + pr[2]
+				}
+				j := sched("c14_soup", params, 0, 2)
+				j.Race = true
+				if tier == "thorough" {
+					j.Bound = 1
+					j.Shards = 8
+					j.Budget = 120
+				}
+				js = append(js, j)
+			}
+			t := sched("c14_soup", "proto=thrift,a=call,b=call", 0, 2)
+			t.Race = true
+			js = append(js, t)
+			return js
+		},
+	},
 }
